@@ -16,6 +16,7 @@ import (
 	"strings"
 	"sync"
 	"sync/atomic"
+	"syscall"
 	"time"
 
 	"verif/host"
@@ -688,6 +689,21 @@ func c04Disk(e *Env, root string, r *rand.Rand) []hcase {
 	for _, t := range []string{"deep", "wide"} {
 		cs = append(cs, hcase{Family: "shape", Name: t, Reqs: []wire.Req{wire.P(wire.OpOpen, "/***DVD***/hd/names/"+t), wire.Read(200000, 0), wire.Crit(2048, 40000), wire.P(wire.OpDirSize, "/hd/names/"+t), wire.P(wire.OpOpenDir, "/hd/names/"+t), wire.Bare(wire.OpReadDir)}})
 	}
+	// special files: a named pipe nobody writes to (open(2) on it blocks), as a plain object, inside a
+	// directory that is turned into an image, and in the place of PARAM.SFO
+	ff := filepath.Join(hd, "fifo")
+	must(os.MkdirAll(filepath.Join(ff, "game", "PS3_GAME"), 0o755))
+	must(os.MkdirAll(filepath.Join(ff, "dir"), 0o755))
+	must(syscall.Mkfifo(filepath.Join(ff, "pipe"), 0o644))
+	must(syscall.Mkfifo(filepath.Join(ff, "dir", "inner-pipe"), 0o644))
+	must(os.WriteFile(filepath.Join(ff, "dir", "file"), []byte("data"), 0o644))
+	must(syscall.Mkfifo(filepath.Join(ff, "game", "PS3_GAME", "PARAM.SFO"), 0o644))
+	must(os.WriteFile(filepath.Join(ff, "game", "EBOOT.BIN"), []byte("eboot"), 0o644))
+	for _, op := range []wire.Op{wire.OpOpen, wire.OpOpenDir, wire.OpStat, wire.OpDirSize, wire.OpCreate, wire.OpDelete} {
+		cs = append(cs, hcase{Family: "shape", Name: "fifo " + op.String(), Reqs: []wire.Req{wire.P(op, "/hd/fifo/pipe"), wire.P(wire.OpStat, "/")}})
+	}
+	cs = append(cs, hcase{Family: "shape", Name: "fifo inside image tree", Reqs: []wire.Req{wire.P(wire.OpOpen, "/***DVD***/hd/fifo/dir"), wire.Read(1<<20, 0), wire.P(wire.OpOpenDir, "/hd/fifo/dir"), wire.Bare(wire.OpReadDir), wire.Bare(wire.OpRDE), wire.P(wire.OpDirSize, "/hd/fifo")}})
+	cs = append(cs, hcase{Family: "shape", Name: "fifo as PARAM.SFO", Reqs: []wire.Req{wire.P(wire.OpOpen, "/***PS3***/hd/fifo/game"), wire.Read(4096, 0)}})
 	// symlink loops for dir-size / listing / image scan
 	lp := filepath.Join(hd, "loop")
 	must(os.MkdirAll(filepath.Join(lp, "a"), 0o755))
